@@ -9,7 +9,6 @@ From V.model Require Import Base RelLex RelParse RelAcc RelGrammar RelGrammarAll
 From V.model Require Import RelEdit RelEditSpec RelEditTree RelLiveAll.
 From V.proofs Require Import BaseP RelEditP RelEditStP RelEditHistP RelEditTreeP RelEditReplaceP RelEditBuildP RelGrammarAllAccP.
 From V.proofs Require Import RelLiveAllP RelLiveAllStepP RelLiveAllWfP RelLiveAllNormP.
-Set Default Timeout 60.
 
 (* an alternative of a live layout begins with its name *)
 Lemma relation_child_lrel e x : In x (lentry_children e) -> is_relation x = true -> exists r, x = lrel_tree r.
